@@ -1,6 +1,8 @@
 #!/bin/bash
 # Offline setup: build the Lean library (models, lemmas, property theorems) and the compiled model drivers.
-set -e
+# A failing `lake build` makes this script fail (pipefail): a tree whose committed generated files or proofs do not
+# build must not look set up.
+set -e -o pipefail
 cd "$(dirname "$0")"
 mkdir -p build evidence replay
 cd lean
